@@ -166,4 +166,13 @@ theorem C03_xdev_confined (f : Follow) (nm : Name) (l r : Bool) (a : Attr) (kids
       confined.confinedK (f == .always) a.s.dev kids' = true :=
   ⟨cutKids (f == .always) a.s.dev kids, rfl, confined_cutKids _ _ _⟩
 
+/-- `viewOf` is the tree `process_dir` walks: `run` hands it the starting point as `-xdev` presents
+    it (`cutRoot`), `process_dir` sorts the listings under `-sorted` - so `C03_order_pre_wf` and
+    `C03_order_post_any` are statements about the walk `run` performs on each starting point. -/
+theorem C03_processDir_view (c : Config) (m : M Prim) (start : Bytes) (root : Node Attr) (g : GS) :
+    processDir c m start (some (if c.xdev then cutRoot c.follow root else root)) g =
+      (let r := processRoot (refCfg c) (evalEntry m start) (viewOf c root) { g with curDir := none }
+       let f := finishDir m r.st
+       ⟨f.1, if f.2 then 1 else r.ret, r.quit, r.diags⟩) := rfl
+
 end FuModel.Find.Run
